@@ -85,6 +85,24 @@ def run_check(prop, tier, base_seed, args):
         st, sweep_info = sweep_tasks(prop, base_seed, tier, nruns)
         # interleave so that a wall-clock cut-off trims both parts alike
         tasks = tasks + st
+    det = None
+    if tier == "thorough" and not args.runs:
+        # determinism self-test on a sample: same seed twice in separate children
+        from concurrent.futures import ThreadPoolExecutor
+
+        sample = [t for t in tasks[:24]]
+
+        def dig(t):
+            r = M.in_child(lambda: M.execute_run(prop, t[1], tier=tier, extra=t[2]))
+            return r.get("digest") if isinstance(r, dict) else None
+
+        with ThreadPoolExecutor(max_workers=8) as ex:
+            d1 = list(ex.map(dig, sample))
+            d2 = list(ex.map(dig, sample))
+        det = {"seeds": len(sample), "identical": sum(1 for a, b in zip(d1, d2) if a is not None and a == b)}
+        if det["identical"] != det["seeds"]:
+            print("HARNESS-NONDET property=%s: %d of %d sampled seeds gave different event-log digests when run twice" % (prop, det["seeds"] - det["identical"], det["seeds"]))
+            return 2
     total = M.run_pool(prop, base_seed, len(tasks), tier, nworkers, wall, tasks=tasks)
     known = M.load_known()
     rc = 0
@@ -130,9 +148,12 @@ def run_check(prop, tier, base_seed, args):
     wall_s = time.time() - t0
     if not args.no_evidence:
         extra = None
+        if det is not None:
+            extra = {"determinism_selftest": det}
         if sweep_info is not None:
-            extra = {"line_sweeps": sweep_info,
-                     "line_sweep_note": "for each listed (workload, schedule) seed every stride-th traced line of the victim process was used as the crash point (stride 1 = the crash-point axis is enumerated for that schedule)"}
+            extra = dict(extra or {})
+            extra.update({"line_sweeps": sweep_info,
+                          "line_sweep_note": "for each listed (workload, schedule) seed every stride-th traced line of the victim process was used as the crash point (stride 1 = the crash-point axis is enumerated for that schedule)"})
         write_evidence(prop, tier, base_seed, total, wall_s, len(new_viol), "exploration", COMPONENTS,
                        known_hits={k: v[1] for k, v in known_hits.items()}, extra=extra)
     for l in lines:
